@@ -228,9 +228,13 @@ def main(argv=None):
         except Exception as e:
             print(f"ANALYSIS-ERROR property={prop} cannot write evidence: {e}")
             return 2
-    n_ok = len([o for o in res.obs if o.ok])
+    n_ok = len([o for o in res.obs if o.ok and not o.inconclusive])
+    for o in res.obs:
+        if o.inconclusive:
+            print(f"INCONCLUSIVE rule={o.rule} at={o.file}:{o.line} {o.where}: {o.msg}")
     st = res.selftest
-    print(f"[{prop}/{tier}] {len(res.obs)} obligations, {n_ok} hold, {len(known_matched)} known finding(s), {len(unknown)} unlisted violation(s); "
+    n_inc = len([o for o in res.obs if o.inconclusive])
+    print(f"[{prop}/{tier}] {len(res.obs)} obligations, {n_ok} hold, {n_inc} inconclusive, {len(known_matched)} known finding(s), {len(unknown)} unlisted violation(s); "
           f"self-test {st['fired_as_expected'] + st['silent_as_expected']}/{st['mutants']} variants as expected; {wall:.2f}s")
     if args.verbose:
         for o in res.obs:
